@@ -21,6 +21,16 @@ int fprintf(FILE *fp, const char *fmt, ...)
 	if (fp != cfgv_fp || fmt[0] != ' ' || fmt[1] != ' ' || fmt[2] != 0) cfgv_badout = 1; else cfgv_blanks += 2;
 	return 2;
 }
+int fputs(const char *str, FILE *fp)      /* the same blanks through another stdio routine are the same output */
+{
+	if (fp != cfgv_fp || str[0] != ' ' || str[1] != ' ' || str[2] != 0) cfgv_badout = 1; else cfgv_blanks += 2;
+	return 1;
+}
+int fputc(int c, FILE *fp)
+{
+	if (fp != cfgv_fp || c != ' ') cfgv_badout = 1; else cfgv_blanks += 1;
+	return c;
+}
 void h_dfcc_indent(void) { FILE *fp; int d; cfg_indent(fp, d); }
 #endif
 /* cfg_getopt_leaf under its loop contract: string comparison is abstract (contract text in confuse_contracts.h) */
@@ -28,9 +38,10 @@ void h_dfcc_indent(void) { FILE *fp; int d; cfg_indent(fp, d); }
 char cfgv_names[CFGV_MAXOPTS]; _Bool cfgv_eq_cs[CFGV_MAXOPTS], cfgv_eq_ci[CFGV_MAXOPTS]; const char *cfgv_asked;
 static int cfgv_cmp(const char *a, const char *b, const _Bool *verdict)
 {
-	__CPROVER_assert(b == cfgv_asked, "[C01,C11] the comparison is with the name asked for");
-	__CPROVER_assert(__CPROVER_same_object(a, cfgv_names), "[C01,C11] the comparison is with the name of an entry of the option array");
-	return verdict[__CPROVER_POINTER_OFFSET(a)] ? 0 : (nondet_bool() ? 1 : -1);
+	const char *e = __CPROVER_same_object(a, cfgv_names) ? a : b, *o = __CPROVER_same_object(a, cfgv_names) ? b : a;   /* either argument order */
+	__CPROVER_assert(o == cfgv_asked, "[C01,C11] the comparison is with the name asked for");
+	__CPROVER_assert(__CPROVER_same_object(e, cfgv_names), "[C01,C11] the comparison is with the name of an entry of the option array");
+	return verdict[__CPROVER_POINTER_OFFSET(e)] ? 0 : (nondet_bool() ? 1 : -1);
 }
 int strcmp(const char *a, const char *b) { return cfgv_cmp(a, b, cfgv_eq_cs); }
 int strcasecmp(const char *a, const char *b) { return cfgv_cmp(a, b, cfgv_eq_ci); }
